@@ -3,6 +3,7 @@ import Srctools.Model.Tok
 import Srctools.Model.C16
 import Srctools.Model.C16Bin
 import Srctools.Model.C16Lazy
+import Srctools.Model.C16KV
 import Srctools.Gen.Tok
 import Srctools.Gen.Fgdw
 /-! Driver for the C16 models.
@@ -143,6 +144,115 @@ def lazyHandle (j : Json) : Except String Json := do
                     ("all", obsJson S names (loadAll S sfin)),
                     ("all0", obsJson S names (loadAll S s0))])
 
+/-! keyvalue / IO lines -/
+open C16.KV in
+def valsOf (j : Json) : Except String Vals := do
+  match j with
+  | Json.null => pure .none
+  | _ =>
+    let a ← j.getArr?
+    let kind ← (a[0]!).getNat?
+    let items ← (a[1]!).getArr?
+    if kind = 0 then
+      let l ← items.toList.mapM fun x => do
+        let q ← x.getArr?
+        pure ({ value := ← Wire.strOfCodes (q[0]!), name := ← Wire.strOfCodes (q[1]!), tags := ← strList (q[2]!) } : Choice)
+      pure (.choices l)
+    else
+      let l ← items.toList.mapM fun x => do
+        let q ← x.getArr?
+        pure ({ mask := ← (q[0]!).getNat?, name := ← Wire.strOfCodes (q[1]!), dflt := ← (q[2]!).getBool?,
+                tags := ← strList (q[3]!) } : C16.KV.Flag)
+      pure (.flags l)
+
+open C16.KV in
+def kvRecOf (j : Json) : Except String KVRec := do
+  let a ← j.getArr?
+  pure { name := ← Wire.strOfCodes (a[0]!), typ := ← (a[1]!).getNat?, disp := ← Wire.strOfCodes (a[2]!),
+         default := ← Wire.strOfCodes (a[3]!), desc := ← Wire.strOfCodes (a[4]!), vals := ← valsOf (a[5]!),
+         readonly := ← (a[6]!).getBool?, reportable := ← (a[7]!).getBool? }
+
+def strsJson (l : List (List Char)) : Json := Json.arr (l.map Wire.codesOfStr).toArray
+
+open C16.KV in
+def valsJson : Vals → Json
+  | .none => Json.null
+  | .choices l => Json.arr #[Json.num (JsonNumber.fromNat 0), Json.arr (l.map fun c =>
+      Json.arr #[Wire.codesOfStr c.value, Wire.codesOfStr c.name, strsJson c.tags]).toArray]
+  | .flags l => Json.arr #[Json.num (JsonNumber.fromNat 1), Json.arr (l.map fun f =>
+      Json.arr #[Json.num (JsonNumber.fromNat f.mask), Wire.codesOfStr f.name, Json.bool f.dflt, strsJson f.tags]).toArray]
+
+open C16.KV in
+def kvRecJson (k : KVRec) : Json :=
+  Json.arr #[Wire.codesOfStr k.name, Json.num (JsonNumber.fromNat k.typ), Wire.codesOfStr k.disp,
+    Wire.codesOfStr k.default, Wire.codesOfStr k.desc, valsJson k.vals, Json.bool k.readonly, Json.bool k.reportable]
+
+open C16.KV in
+def ioRecOf (j : Json) : Except String IORec := do
+  let a ← j.getArr?
+  pure { name := ← Wire.strOfCodes (a[0]!), typ := ← (a[1]!).getNat?, desc := ← Wire.strOfCodes (a[2]!) }
+
+open C16.KV in
+def ioRecJson (io : IORec) : Json :=
+  Json.arr #[Wire.codesOfStr io.name, Json.num (JsonNumber.fromNat io.typ), Wire.codesOfStr io.desc]
+
+def tableOf (j : Json) : Except String (Char → List Char) := do
+  let a ← j.getArr?
+  let pairs ← a.toList.mapM fun p => do
+    let q ← p.getArr?
+    let k ← (q[0]!).getNat?
+    let v ← Wire.strOfCodes (q[1]!)
+    pure (Char.ofNat k, v)
+  pure fun c => match pairs.find? (·.1 == c) with
+    | some p => p.2
+    | none => [c]
+
+open C16.KV in
+def expCfgOf (j : Json) : Except String ExpCfg := do
+  pure { long := Gen.Fgdw.longCfg, T := Gen.Tok.tables, tt := Gen.Fgdw.typeTab,
+         ext := ← j.getObjValAs? Bool "ext", label := ← j.getObjValAs? Bool "label" }
+
+open C16.KV in
+def itemJson : Item → Json
+  | .kv tags k => Json.arr #[Json.str "kv", strsJson tags, kvRecJson k]
+  | .inp tags io => Json.arr #[Json.str "in", strsJson tags, ioRecJson io]
+  | .out tags io => Json.arr #[Json.str "out", strsJson tags, ioRecJson io]
+
+open C16.KV in
+def perrJson (e : PErr) : Json := Json.mkObj [("perr", Json.num (JsonNumber.fromNat e.code))]
+
+/-- ops on keyvalue / IO lines:
+  {"op":"kvexport","ext":b,"label":b,"tags":[[cp]],"kv":K}          → {"text":[cp]}
+  {"op":"ioexport","ext":b,"label":b,"kw":[cp],"tags":[[cp]],"io":IO} → {"text":[cp]}
+  {"op":"bodyparse","s":[cp],"fold":[[cp,[cp]]],"up":[[cp,[cp]]]}    → {"run":…,"items":[…],"rest":n} | {"run":…,"perr":code}
+     (tokens of s under FGD.parse_file options, then the body loop of EntityDef.parse) -/
+def kvHandle (op : String) (j : Json) : Except String Json := do
+  match op with
+  | "kvexport" =>
+    let c ← expCfgOf j
+    let tags ← strList (← j.getObjVal? "tags")
+    let k ← kvRecOf (← j.getObjVal? "kv")
+    pure (Json.mkObj [("text", Wire.codesOfStr (C16.KV.exportKV c tags k))])
+  | "ioexport" =>
+    let c ← expCfgOf j
+    let tags ← strList (← j.getObjVal? "tags")
+    let kw ← Wire.strOfCodes (← j.getObjVal? "kw")
+    let io ← ioRecOf (← j.getObjVal? "io")
+    pure (Json.mkObj [("text", Wire.codesOfStr (C16.KV.exportIO c kw tags io))])
+  | "bodyparse" =>
+    let s ← Wire.strOfCodes (← j.getObjVal? "s")
+    let fold ← tableOf (← j.getObjVal? "fold")
+    let up ← tableOf (← j.getObjVal? "up")
+    let r := run Gen.Tok.tables Gen.Fgdw.parseOpts fold s
+    let tks := tksOf r
+    let P : C16.KV.ParseCfg := { tt := Gen.Fgdw.typeTab, fold := fold, up := up }
+    match C16.KV.parseBody P (tks.length + 1) tks [] with
+    | .ok (items, rest) =>
+      pure (Json.mkObj [("run", runJson r), ("items", Json.arr (items.map itemJson).toArray),
+                        ("rest", Json.num (JsonNumber.fromNat rest.length))])
+    | .error e => pure (Json.mkObj [("run", runJson r), ("perr", Json.num (JsonNumber.fromNat e.code))])
+  | _ => throw s!"unknown op {op}"
+
 def handle (j : Json) : Except String Json := do
   let op ← j.getObjValAs? String "op"
   match op with
@@ -194,6 +304,6 @@ def handle (j : Json) : Except String Json := do
     | some (e, rest) => pure (Json.mkObj [("ent", entJson e), ("rest", Json.num (JsonNumber.fromNat rest.length))])
     | none => pure (Json.mkObj [("ent", Json.null), ("rest", Json.num (JsonNumber.fromNat 0))])
   | "lazy" => lazyHandle j
-  | _ => throw s!"unknown op {op}"
+  | _ => kvHandle op j
 
 def main : IO Unit := Wire.main handle
